@@ -312,6 +312,7 @@ pub fn scenarios(thorough: bool) -> Vec<Scenario> {
     v.push(single_scenario("single-kinds", kind_docs(), if thorough { 3 } else { 2 }, &[Op::Snapshot(0)]));
     v.push(trio_scenario("trio", if thorough { 7 } else { 5 }));
     v.push(trio_merge_scenario("trio-merge", if thorough { 3 } else { 2 }, &[]));
+    v.extend(cross_scenarios(thorough));
     v
 }
 
